@@ -26,6 +26,7 @@ type Arg struct {
 	Len  int    `json:"len"`
 	Cap  int    `json:"cap"`
 	Data string `json:"data,omitempty"` // hex content placed at [Off, Off+Len)
+	Fill uint64 `json:"fill,omitempty"` // != 0: [Off, Off+Len) is the splitmix64 stream of this seed (large arguments)
 }
 
 // Case is one call into the real code with its arguments cut out of canary-filled buffers.
@@ -65,7 +66,7 @@ func canary(buf, i int) byte { return byte(0xC5 ^ (i*37 + buf*101 + (i>>5)*13)) 
 func materialise(c *Case) (bufs [][]byte, sl map[string][]byte, err error) {
 	bufs = make([][]byte, len(c.Bufs))
 	for k, n := range c.Bufs {
-		if n < 0 || n > 1<<20 {
+		if n < 0 || n > 1<<22 {
 			return nil, nil, fmt.Errorf("buffer size %d", n)
 		}
 		bufs[k] = make([]byte, n)
@@ -87,6 +88,9 @@ func materialise(c *Case) (bufs [][]byte, sl map[string][]byte, err error) {
 			return nil, nil, fmt.Errorf("argument %s: bad data", a.Name)
 		}
 		copy(bufs[a.Buf][a.Off:], d)
+		if a.Fill != 0 {
+			fillStream(bufs[a.Buf][a.Off:a.Off+a.Len], a.Fill)
+		}
 		sl[a.Name] = bufs[a.Buf][a.Off : a.Off+a.Len : a.Off+a.Cap]
 	}
 	return bufs, sl, nil
